@@ -281,10 +281,13 @@ func init() {
 					add(fmt.Sprintf("%s-k2", idxName[idx]), p("k", 2, "index", idx, "shards", 1))
 				}
 				add("hashmap-k3-s2", p("k", 3, "index", 3, "shards", 2, "nobatch", 1))
+				add("hashmap-k3-multichunk-values", p("k", 3, "index", 3, "shards", 1, "nobatch", 1, "bigv", 40))
 			} else {
 				for idx := 1; idx <= 3; idx++ {
 					add(fmt.Sprintf("%s-k3", idxName[idx]), p("k", 3, "index", idx, "shards", 2))
 				}
+				add("btree-k3-multichunk-values-mmap", p("k", 3, "index", 1, "shards", 1, "bigv", 70, "io", 1))
+				add("skiplist-k3-multichunk-values", p("k", 3, "index", 2, "shards", 2, "bigv", 40, "nobatch", 1))
 			}
 			js = append(js, JobSpec{Name: "witness", Harness: "root", Func: "verifHarnessC15", Params: p("k", 1, "index", 3, "shards", 1, "witness", 1), Scale: scaleDF(32), Witness: true})
 			return js
@@ -526,6 +529,9 @@ func init() {
 			add("threshold-std", merge(base, p("k", k+1, "ops", opPut|opDelete, "sync", syncThreshold, "vlens", 3, "vbig", 25)))
 			add("nosync-std-batch", merge(base, p("k", k, "ops", opPut|opSync|opBatch|opRestart, "sync", syncNo, "bsync", 1, "vlens", 1)))
 			add("always-std-batch-rot", merge(base, p("k", k+1, "ops", opPut|opBatch, "sync", syncAlways, "vlens", 1, "dfs_lo", 130, "dfs_hi", 160)))
+			// a plain (non-Sync) batch bypasses the per-write policy: an explicit Sync()/Close() after it must still flush it
+			add("always-std-plainbatch-sync", merge(base, p("k", 2, "ops", opBatch|opSync|opRestart, "sync", syncAlways, "bsync", 0, "vlens", 1)))
+			add("threshold-mmap-plainbatch-sync", merge(base, p("k", 2, "ops", opBatch|opSync|opRestart, "sync", syncThreshold, "bsync", 0, "vlens", 1, "io", 1)))
 			add("always-mmap", merge(base, p("k", k, "ops", opPut|opDelete|opSync|opRestart, "sync", syncAlways, "io", 1)))
 			add("threshold-mmap", merge(base, p("k", k, "ops", opPut|opDelete|opRestart, "sync", syncThreshold, "io", 1)))
 			if tier == "thorough" {
@@ -636,11 +642,15 @@ func init() {
 	register(&CheckDef{
 		ID:    "C16",
 		Title: "A data directory has at most one open database at a time",
-		Reach: []string{"done", "reopened-after-close", "failed-open-corrupt", "failed-open-injected", "stale-close", "racing-open-won", "racing-open-lost"},
+		Reach: []string{"done", "reopened-after-close", "failed-open-corrupt", "failed-open-injected", "stale-close", "racing-open-won", "racing-open-lost", "pending-merge"},
 		Jobs: func(tier string) []JobSpec {
 			var js []JobSpec
 			for idx := 1; idx <= 3; idx += 2 {
 				js = append(js, JobSpec{Name: "sequential-" + idxName[idx], Harness: "root", Func: "verifHarnessC16", Params: p("index", idx, "shards", 1, "maxfail", 14), Scale: scaleDF(32)})
+			}
+			js = append(js, JobSpec{Name: "sequential-pending-merge-hashmap", Harness: "root", Func: "verifHarnessC16", Params: p("index", 3, "shards", 1, "maxfail", 14, "pendingmerge", 1), Scale: scaleDF(32)})
+			if tier == "thorough" {
+				js = append(js, JobSpec{Name: "sequential-pending-merge-btree-mmap", Harness: "root", Func: "verifHarnessC16", Params: p("index", 1, "shards", 2, "maxfail", 30, "pendingmerge", 1, "io", 1), Scale: scaleDF(32)})
 			}
 			pre := 2
 			if tier == "thorough" {
@@ -776,6 +786,9 @@ func init() {
 		Jobs: func(tier string) []JobSpec {
 			var js []JobSpec
 			add := func(name string, params map[string]int64, maxPaths int) {
+				// the interleaving model (sequential consistency between switch points) is only sound for data-race-free
+				// executions, so every C08 job also runs the happens-before check: a race voids the linearizability claim
+				params["race"] = 1
 				js = append(js, JobSpec{Name: name, Harness: "root", Func: "verifHarnessC08", Params: params, Scale: scaleDF(32), NoReplay: true, MaxPaths: maxPaths})
 			}
 			if tier == "quick" {
@@ -785,6 +798,8 @@ func init() {
 				add("2x1-merge", p("threads", 2, "opsper", 1, "pool", 1, "index", 3, "shards", 1, "preempt", 1, "merge", 1, "preput", 1), 0)
 				add("1x2-merge-rotating-writer", p("threads", 1, "opsper", 2, "onlyput", 1, "pool", 2, "index", 3, "shards", 1, "preempt", 2, "merge", 1, "preput", 1, "dfs_lo", 60, "dfs_hi", 60), 0)
 				add("2x1-sync-always", p("threads", 2, "opsper", 1, "pool", 1, "index", 3, "shards", 1, "preempt", 3, "preput", 1, "sync", 1), 0)
+				add("2x1-gets-in-different-blocks", p("threads", 2, "opsper", 1, "pool", 2, "index", 1, "shards", 1, "preempt", 3, "preput", 2, "onlyget", 1), 0)
+				add("2x1-different-blocks-skiplist", p("threads", 2, "opsper", 1, "pool", 2, "index", 2, "shards", 1, "preempt", 2, "preput", 2), 0)
 				add("2x1-sync-threshold-btree", p("threads", 2, "opsper", 1, "pool", 1, "index", 1, "shards", 1, "preempt", 2, "preput", 1, "sync", 2), 0)
 			} else {
 				add("2x2-hashmap-p3", p("threads", 2, "opsper", 2, "pool", 1, "index", 3, "shards", 1, "preempt", 3, "preput", 1), 0)
